@@ -20,6 +20,13 @@ def grid(rng, tier):
         a_vals |= set(x for x in ulp_neighbors(t) if 0.05 <= x <= 100.0)
     for i in range(10 if tier == "quick" else 80):
         a_vals.add(0.05 + rng.unit() * rng.choice([1.0, 3.0, 30.0, 99.0]))
+    # a geometric approach to every threshold of the shape from both sides (a window meant to be 1e-8 wide may have been widened)
+    for t in [0.3, 1.0, 2.0]:
+        for k in range(2, 8):
+            for sgn in (1, -1):
+                v = t * (1 + sgn * 10.0 ** -k)
+                if 0.05 <= v <= 100.0:
+                    a_vals.add(v)
     p_vals = [0.0, 5e-324, 2.0**-1022, 2.0**-53, 1e-300, 1e-100, 1e-30, 1e-16, 1e-10, 1e-6, 1e-3, 0.01, 0.1, 0.25,
               math.nextafter(0.5, 0), 0.5, math.nextafter(0.5, 1), 0.75, 0.9, 0.99, 0.999999, 1 - 1e-10, 1 - 1e-16, top, math.nextafter(top, 0)]
     cases = []
@@ -121,7 +128,7 @@ def run(rep, rng, tier, replay=None):
     rep.cov["exit_histogram"] = exits
     rep.cov["outcome_histogram"] = outcomes
     rep.cov["accuracy_checked"] = nacc
-    rep.cov["rule"] = ("a: log-spaced grid on [0.05,100] plus every branch threshold of the starting-value selection +-1ulp (0.3, 1, 1+-1e-8, ...) plus random draws; p: 0, 2^-1074, "
+    rep.cov["rule"] = ("a: log-spaced grid on [0.05,100] plus every branch threshold of the starting-value selection +-1ulp (0.3, 1, 1+-1e-8, ...) plus t(1 +- 10^-k), k = 2..7, around the thresholds 0.3, 1, 2, plus random draws; p: 0, 2^-1074, "
                        "2^-1022, 2^-53, 1e-300..1e-3, 0.5+-ulp, ..., 1-1e-16, 1-2^-53 and its predecessor, random draws; plus p placed at the algorithm's own branch variables (b = (1-p)Gamma(a) at each threshold +-1ulp, w within and just outside 1e-6 of a, w at 3a). Result bits and outcome of the real function vs the Coq "
                        "transcription (all six external functions answered by statrs/libm through the recorded table; exit tags reported), then on the real result: finite and > 0, "
                        "|P(a,lambda)-p| <= 2e-8 with mpmath at 40 digits whenever P(a,1e-13) <= p. non-trivial = the iteration ran (exit Conv or Fuel)")
